@@ -176,7 +176,8 @@ func runC08(c *Ctx) {
 			}
 			construct := "state=" + w.stateNames[to]
 			if to == w.stHandshake {
-				c.check(fn == w.reset, fn, construct, st.Pos(), "only reset() returns to the handshake state", "the stream is put back into StateHandshake outside reset()")
+				inReset := fn == w.reset || allCallersSatisfy(p, fn, 2, func(caller *ssa.Function) bool { return caller == w.reset })
+				c.check(inReset, fn, construct, st.Pos(), "only reset() returns to the handshake state", "the stream is put back into StateHandshake outside reset()")
 				continue
 			}
 			from := allowedStates(st.Block(), w.state, nStates)
